@@ -32,11 +32,11 @@ void harness(void) {
 #endif
   blocks = 3;
   n_children = CHUNKS(it)->chunk_count;
-  g_dc.watched = CHUNKS(it)->chunks + g_k;
+  g_dc.watched = g_k < n_children ? CHUNKS(it)->chunks + g_k : NULL; /* no pointer sum outside the table (or on a NULL table) */
 #elif defined(KIND_ARRAY)
   cbor_item_t *it = mk_array(); blocks = 2;
   n_children = it->metadata.array_metadata.end_ptr;
-  g_dc.watched = (cbor_item_t **)it->data + g_k;
+  g_dc.watched = g_k < n_children ? (cbor_item_t **)it->data + g_k : NULL;
   if (g_k < n_children) g_dc.expect = ((cbor_item_t **)it->data)[g_k] != NULL;
 #elif defined(KIND_MAP)
   cbor_item_t *it = mk_map(); blocks = 2;
@@ -46,10 +46,10 @@ void harness(void) {
 #endif
   g_dc.watch_value = nondet_bool();
   if (g_dc.watch_value) {
-    g_dc.watched = &((struct cbor_pair *)it->data)[g_k].value;
+    g_dc.watched = g_k < n_children ? &((struct cbor_pair *)it->data)[g_k].value : NULL;
     if (g_k < n_children) g_dc.expect = ((struct cbor_pair *)it->data)[g_k].value != NULL;
   } else {
-    g_dc.watched = &((struct cbor_pair *)it->data)[g_k].key;
+    g_dc.watched = g_k < n_children ? &((struct cbor_pair *)it->data)[g_k].key : NULL;
   }
 #elif defined(KIND_TAG)
   cbor_item_t *it = mk_tag(); blocks = 2;
